@@ -78,7 +78,7 @@ static void configure(G & g, const CfgT & c)
   }
 }
 
-enum OpKind { CREATE, SHOOT, RESET_REINIT, DESTROY, NOPS };
+enum OpKind { CREATE, SHOOT, RESET_REINIT, DESTROY, RECONFIG /* reset(), then ANOTHER configuration on the same object, initialise */, NOPS };
 struct Op { int kind, slot, cfg, evkind, junk; uint32_t tseed; };
 static const char * EVK[] = {"fresh", "reused", "prefilled", "shrunk"};
 static std::string op_str(const Op & o)
@@ -88,6 +88,7 @@ static std::string op_str(const Op & o)
   case CREATE: snprintf(b, sizeof b, "create(slot %d, %s:%s L%d M%d%s, initseed %u)", o.slot, CFGS[o.cfg].kind, CFGS[o.cfg].name, CFGS[o.cfg].level, CFGS[o.cfg].mode, CFGS[o.cfg].mdl ? (" +mdl#" + std::to_string(CFGS[o.cfg].mdl)).c_str() : "", o.tseed); break;
   case SHOOT: snprintf(b, sizeof b, "shoot(slot %d, tape %u, event %s%s)", o.slot, o.tseed, EVK[o.evkind], o.evkind == 2 ? (" x" + std::to_string(o.junk)).c_str() : ""); break;
   case RESET_REINIT: snprintf(b, sizeof b, "reset+reinit(slot %d)", o.slot); break;
+  case RECONFIG: snprintf(b, sizeof b, "reset+reconfigure(slot %d, %s:%s L%d M%d%s, initseed %u)", o.slot, CFGS[o.cfg].kind, CFGS[o.cfg].name, CFGS[o.cfg].level, CFGS[o.cfg].mode, CFGS[o.cfg].mdl ? (" +mdl#" + std::to_string(CFGS[o.cfg].mdl)).c_str() : "", o.tseed); break;
   default: snprintf(b, sizeof b, "destroy(slot %d)", o.slot);
   }
   return b;
@@ -255,6 +256,10 @@ static RunInfo run_history(const std::vector<Op> & ops)
     else if (o.kind == RESET_REINIT) {
       if (!s.g) continue;
       s.g->reset(); configure(*s.g, CFGS[s.cfg]); Tape it; it.seed = s.iseed; TapeRandom r(it, 0, 200000); s.g->initialize(r);
+    } else if (o.kind == RECONFIG) {
+      if (!s.g) continue;
+      s.g->reset(); s.cfg = o.cfg; s.iseed = o.tseed; s.shots = 0;
+      configure(*s.g, CFGS[s.cfg]); Tape it; it.seed = s.iseed; TapeRandom r(it, 0, 200000); s.g->initialize(r);
     } else if (o.kind == SHOOT) {
       if (!s.g) continue;
       bxdecay0::event local; bxdecay0::event * ev = &local;
@@ -404,8 +409,8 @@ int main(int argc, char ** argv)
     std::vector<Op> failing; RunInfo fri;
     auto genOp = rc::gen::apply([](int kind, int slot, int cfg, int evkind, int junk, uint32_t ts) {
       // shots are the majority of operations
-      Op o; o.kind = kind < 5 ? SHOOT : (kind < 8 ? CREATE : (kind == 8 ? RESET_REINIT : DESTROY)); o.slot = slot; o.cfg = cfg; o.evkind = evkind; o.junk = junk; o.tseed = ts % 60; return o; },
-      rc::gen::resize(100, rc::gen::inRange(0, 10)), rc::gen::resize(100, rc::gen::inRange(0, 4)), rc::gen::resize(100, rc::gen::inRange(0, NCFG)),
+      Op o; o.kind = kind < 5 ? SHOOT : (kind < 8 ? CREATE : (kind == 8 ? RESET_REINIT : (kind == 9 ? DESTROY : RECONFIG))); o.slot = slot; o.cfg = cfg; o.evkind = evkind; o.junk = junk; o.tseed = ts % 60; return o; },
+      rc::gen::resize(100, rc::gen::inRange(0, 12)), rc::gen::resize(100, rc::gen::inRange(0, 4)), rc::gen::resize(100, rc::gen::inRange(0, NCFG)),
       rc::gen::resize(100, rc::gen::inRange(0, 4)), rc::gen::resize(100, rc::gen::inRange(0, 40)), rc::gen::arbitrary<uint32_t>());
     bool okrc = rc::check("events do not depend on history", [&]() {
       auto body = *rc::gen::container<std::vector<Op>>(genOp);
